@@ -10,7 +10,7 @@ PROP = {'level': 'proof',
          'network: the dial error - or the error of a context that was done already - comes back, nothing reaches a listener of the harness), and '
          'Client.Net = unixgram with a peer that takes the first datagram and is then closed and unlinked (every retransmission fails while the '
          'Read stays pending; cancellation or a deadline must still end the call); every scenario with the context either of a standard library '
-         'type or (about half) of a user-defined type with its own Done channel. Observed and reported as classes/booleans (never raw timings): identity of the returned error (nil+packet / '
+         'type or (about half) of a user-defined type with its own Done channel. Observed and reported as classes/booleans (plus the raw arrival instants behind the resend class, see below): identity of the returned error (nil+packet / '
          'context.Canceled / context.DeadlineExceeded by ==, net error, parse error, NonAuthenticResponseError), the first datagram at the peer, '
          'byte-identity of all datagrams the peer received, their number (exactly one when Retry <= 0; between elapsed/Retry/3-2 and elapsed/Retry+2 '
          'otherwise), return within 250 ms of the cancellation, nothing at the peer after a sentinel datagram sent at the moment of return during '
@@ -20,13 +20,21 @@ PROP = {'level': 'proof',
          'clauses (promptness, resend count with Retry > 0, goroutine census, descriptor count) are re-measured: a scenario in which one fails is '
          'run up to two more times and the clause is reported only if it fails in all three runs. The Lean side runs the logic machine on the '
          "scenario's abstract event sequence and compares the timing-independent parts (outcome class, returned packet, first datagram = encoded "
-         'request, verbatim, no resend without retry, silence, clean-up).',
+         'request, verbatim, no resend without retry, silence, clean-up). Timed layer: the harness also prints the arrival instant of every request '
+         'datagram at the peer and the instant Exchange had returned by (whole ms since the instant just before Exchange was called) and the '
+         'interval; the driver evaluates on these numbers the upper bounds the timed machine RV.Exchange.Timed proves for every well-timed run '
+         '(i-th datagram not before i*Retry; at most 1 + end/Retry datagrams; at most one when Retry <= 0) with an allowance of 1 ms.',
  'level_text': 'Lean theorems about the Exchange logic machine (dial, first write, ticker only if Retry > 0, helper goroutine, context, read '
                'completions, deferred cancel/close) for every event sequence: every write is the byte string Encode produced; at most one write '
                'when Retry <= 0; nothing is written and the result is fixed once returned; a read error with the context done returns the '
                "context's error whatever the budget, and once the helper has closed the conn no queued datagram is delivered; every sequence "
                'with a failed dial, a read error after the dial, an acceptable datagram on the open conn, or ctxDone -> helperObservesCtx -> read '
-               'error ends returned; returned => socket closed and helper exit enabled and final. Proof for the LOGIC only - partial: promptness, '
+               'error ends returned; returned => socket closed and helper exit enabled and final. Timed refinement (time stamps; time.Ticker '
+               'with a capacity-1 channel whose deliveries and receives are late by amounts the environment chooses), for every well-timed sequence: it '
+               'refines the untimed machine; the i-th retransmission is not before t0 + i*Retry; at most 1 + (T - t0)/Retry writes by T; '
+               'consecutive retransmissions come from different firings (spacing >= Retry minus the lateness of the earlier one); with Retry <= 0 '
+               'no tick is ever enabled; under an explicit latency hypothesis L < Retry no tick is lost and at least (T - t0 - L)/Retry '
+               'retransmissions happen. Proof for the LOGIC and the TIMING BOUNDS only - partial: promptness, '
                'socket closing, goroutine exit and ICMP behaviour are runtime facts validated on traces of the real code, not proved.',
  'level_note': 'Partial. Proved: the logic machine RV.Exchange.step (hand-written mirror of client.go:46-130) satisfies the clauses above. NOT '
                'proved, only validated on traces of the real code by this run: that the Go runtime schedules the helper after ctx.Done() and that '
@@ -36,7 +44,10 @@ PROP = {'level': 'proof',
                'cancellation and the helper closing the conn (theorem ctx_window_processes_datagrams); the statement does not demand it. Trusted: '
                'Lean kernel, the mirror, the scripted peer / census / classifier of the harness, driver glue, ./check.',
  'trusted': ['scenario -> abstract event sequence mapping in RV.Driver.C08 (the number of ticks is timing dependent; a representative number is used)',
+             'the Go runtime ticker is as RV.Exchange.Timed.wellTimed describes it (never delivers a tick before it is due, channel of capacity 1); '
+             'a datagram is seen by the peer after it was written; time.Now and the runtime timers read the same monotonic clock',
              'runtime.Stack census and /proc/self/fd as observations of goroutine and descriptor leaks'],
  'assumptions': ['the Go scheduler eventually runs a runnable goroutine; net.Conn.Close unblocks a pending Read',
                  'loopback: a closed UDP port answers with ICMP port unreachable, datagrams of one sender arrive in order',
-                 'tolerances: 250 ms promptness, 200 ms census, resend count within [elapsed/Retry/3-2, elapsed/Retry+2]']}
+                 'tolerances: 250 ms promptness, 200 ms census, resend count within [elapsed/Retry/3-2, elapsed/Retry+2] (class token); '
+                 'model bounds on the raw arrival instants (never early, never more than one per interval): allowance 1 ms']}
